@@ -607,16 +607,42 @@ func (w *World) apply(act action) {
 		// relist: skip to the head, delivering only the latest event per key
 		p, cl := act.proc, act.cl
 		v := p.view(cl)
+		// Like an informer after "resource version too old": the new list replaces the store and one
+		// event per key is synthesised from (what the informer had, what the list holds now) - an object
+		// deleted and re-created meanwhile shows up as an update from the old to the new object, and as
+		// a delete for an informer whose selector no longer matches it.
 		last := map[store.Key]int{}
+		before := map[store.Key]store.Obj{}
 		from := v.seen
 		for i := from; i < len(cl.Log); i++ {
-			last[cl.Log[i].Key] = i
+			k := cl.Log[i].Key
+			if _, ok := last[k]; !ok {
+				if o, had := v.objs[k]; had {
+					before[k] = store.Copy(o)
+				} else {
+					before[k] = nil
+				}
+			}
+			last[k] = i
 		}
+		var order []store.Key
 		for i := from; i < len(cl.Log); i++ {
 			ev := cl.Log[i]
-			d := p.advance(cl)
+			_ = p.advance(cl)
 			if last[ev.Key] == i {
-				d()
+				order = append(order, ev.Key)
+			}
+		}
+		for _, k := range order {
+			b := before[k]
+			cur, ok := v.objs[k]
+			switch {
+			case b == nil && ok:
+				p.dispatch(cl, store.Event{Type: "ADDED", Key: k, After: store.Copy(cur)})
+			case b != nil && ok:
+				p.dispatch(cl, store.Event{Type: "MODIFIED", Key: k, Before: b, After: store.Copy(cur)})
+			case b != nil && !ok:
+				p.dispatch(cl, store.Event{Type: "DELETED", Key: k, Before: b, After: b})
 			}
 		}
 		w.Stats.Fault("compaction")
